@@ -1,6 +1,8 @@
 """C17 - concurrent runs on the same maildirs neither lose nor duplicate messages."""
 import concurrent.futures as cf
+import json
 import os
+import re
 import random
 import shlex
 import vlib
@@ -25,6 +27,45 @@ B_KINDS['ext-delete'] = None
 
 # first-party kinds that copy the message next to (or instead of) the original: the window of the pinned finding
 COPYING = {'label', 'move-xdev'}
+
+# The pinned findings F13/F14 are identified by HISTORY: (pair of parties, rule shape, phase of the first party at which the second
+# one runs, both exit statuses, what is wrong in the final tree).  The table is committed (known/C17_histories.json, produced once from
+# the pinned tree by tools/pin_histories.py) and only read here: a wrong final tree after any other history is a VIOLATION.
+WITNESS_PAIRS = [('flag', 'move-A'), ('label', 'label')]
+HIST_FILE = os.path.join(vlib.ROOT, 'known', 'C17_histories.json')
+
+
+def phases(calls):
+    """Phase of the first party before each of its calls: idle / inflight-empty (it created a file with O_EXCL and has not flushed
+    content into it) / inflight-complete (content flushed, source name not yet removed or renamed)."""
+    out, ph = [], 'idle'
+    for c in calls:
+        out.append(ph)
+        raw = c['raw']
+        name = raw.split()[1] if len(raw.split()) > 1 else ''
+        if name == 'openat' and 'O_EXCL' in raw:
+            ph = 'inflight-empty'
+        elif name == 'fflush' and ph == 'inflight-empty':
+            ph = 'inflight-complete'
+        elif name in ('renameat', 'unlinkat'):
+            ph = 'idle'
+    return out
+
+
+def norm_problem(p):
+    return re.sub(r'\d{6,}\.\d+_(\d+)\.\w+', r'N\1', p)
+
+
+def signature(rec):
+    return ' || '.join([rec['pair'], 'match-all' if rec['rule'] != RULE else 'match-real', rec['phase'], 'A=%s' % rec['status'],
+                        'B=%s' % ','.join(rec['b_status'] or []), ' ; '.join(sorted(set(norm_problem(p) for p in rec['problems'])))])
+
+
+def load_histories():
+    try:
+        return json.load(open(HIST_FILE))
+    except OSError:
+        return {}
 
 
 def conf_for(kind, root, rule=RULE):
@@ -57,7 +98,8 @@ def pair(tools, a_kind, b_kind, tier, rule=RULE, b_rule=RULE):
             bcmd = ('HOME=%s/home TMPDIR=%s/tmp LD_PRELOAD=%s VSHIM_TIME=1790000000 VSHIM_PID=5353 VSHIM_HOST=host VSHIM_RANDOM=50 %s %s -f %s '
                     '>>%s/partyB.out 2>&1; echo $? >> %s/partyB.status') % (
                 scen.root, scen.root, tools.shim, ('VSHIM_DEVMAP=' + dev) if dev else '', tools.mdsort, bconf, scen.root, scen.root)
-        points = range(ncalls) if tier != 'quick' else range(ncalls)
+        points = range(ncalls)
+        phs = phases(clean.calls())
         for k in points:
             scen.reset()
             if bconf:
@@ -92,31 +134,16 @@ def pair(tools, a_kind, b_kind, tier, rule=RULE, b_rule=RULE):
             if r.status not in (0, 1):
                 probs.append('first party: abnormal exit status %r' % (r.status,))
             out.append({'pair': spec.name, 'k': k, 'call': clean.calls()[k]['raw'].replace(scen.root, R)[:140], 'status': r.status, 'b_status': bstat,
-                        'problems': probs, 'a_kind': a_kind, 'b_kind': b_kind, 'rule': rule})
+                        'problems': probs, 'a_kind': a_kind, 'b_kind': b_kind, 'rule': rule, 'phase': phs[k]})
         return out
     finally:
         scen.cleanup()
 
 
-def classify(rec):
-    """Known finding classes by history: first party kind, what went wrong."""
-    dup = any('exists' in p for p in rec['problems'])
-    lost = any('lost' in p for p in rec['problems'])
-    partial = any('not intact' in p for p in rec['problems'])
-    strays = [p for p in rec['problems'] if 'stray' in p]
-    empty_strays = [p for p in strays if '(0 bytes)' in p]
-    abnormal = any('abnormal' in p for p in rec['problems'])
-    if lost or abnormal:
-        return 'unlisted'
-    # another party listed the directory while a complete new copy stood next to its original
-    if rec['a_kind'] in COPYING and (dup or partial or strays) :
-        return 'inflight-copy-visible'
-    # a placeholder created in new/cur was taken for a message (by the other party, or by the same party after its source vanished)
-    if strays and len(empty_strays) == len(strays) and not dup and not partial:
-        return 'placeholder-visible'
-    if rec['rule'] != RULE and (strays or dup or partial):
-        return 'placeholder-visible'
-    return 'unlisted'
+def classify(rec, hist=None):
+    """Class of a wrong final tree: the known-finding class its exact history is listed under, else `unlisted` (a violation)."""
+    hist = load_histories() if hist is None else hist
+    return hist.get(signature(rec), 'unlisted')
 
 
 def run(rep):
@@ -135,18 +162,19 @@ def run(rep):
         for res in ex.map(lambda p: pair(tools, p[0], p[1], rep.tier), pairs):
             results.extend(res)
         # witnesses of the placeholder finding: rules that match every file
-        for res in ex.map(lambda p: pair(tools, p[0], p[1], rep.tier, rule='match all', b_rule='match all'), [('flag', 'move-A'), ('label', 'label')]):
+        for res in ex.map(lambda p: pair(tools, p[0], p[1], rep.tier, rule='match all', b_rule='match all'), WITNESS_PAIRS):
             results.extend(res)
     nprob = 0
     classes = {}
+    hist = load_histories()
     for r in results:
         if r['problems']:
-            key = '%s %s' % (classify(r), r['pair'])
+            key = '%s %s' % (classify(r, hist), r['pair'])
             classes[key] = classes.get(key, 0) + 1
     for r in results:
         if r['problems']:
             nprob += 1
-            rep.finding(classify(r), {'pair': r['pair'], 'second_party_runs_before_call': r['k'], 'call': r['call'], 'rule': r['rule'],
+            rep.finding(classify(r, hist), {'pair': r['pair'], 'history': signature(r), 'second_party_runs_before_call': r['k'], 'call': r['call'], 'rule': r['rule'],
                                       'first_party_exit': r['status'], 'second_party_exit': r['b_status'], 'what': r['problems'][:5]})
     vlib.lean_conclude(rep)
     rep.coverage.update({
